@@ -122,6 +122,17 @@ UNITS = {
                dict(name="qswsrqueue_dequeue", as_="qswsr_deq_index", start=r"^q->head =", stop=r"^return item", outputs=["q_head"]),
                dict(name="qswsrqueue_dequeue_blocking", as_="qswsr_deqb_index", stop=r"^do\b", outputs=["cur_head", "next_head"]),
                dict(name="qswsrqueue_empty", as_="qswsr_empty")]),
+    "Hash": dict(
+        file="src/ds/dictionary/hash.c",
+        funcs=[dict(name="qt_hash64", blocks=[r"^a = a - b$"])]),
+    "Hashmap": dict(
+        file="src/hashmap.c",
+        funcs=[dict(name="encompassing_power_of_two"),
+               dict(name="qt_hash_internal_create", as_="qt_hash_create_sizes", stop=r"^ret->entries = qt_internal_aligned_alloc",
+                    outputs=["ret_num_entries", "ret_mask"], globals=["_pagesize", "bucketmask"],
+                    # the three float thresholds (entries * 0.65f etc.) are outside the integer subset: not tracked here,
+                    # tied by the dynamic correspondence of lib/verif/props/_hashmap.py only
+                    ignore=["ret_grow_size", "ret_tidy_up_size", "ret_shrink_size"])]),
     "Ident": dict(
         file="src/qthread.c",
         funcs=[dict(name="qthread_id", skip_stmts=[r"^qthread_debug"],
@@ -344,6 +355,8 @@ class Kernel:
         self.ret_ty = None
         self.cur_file = None
         self.oracle_sites = {}
+        self.puns = {}
+        self.last_record = None
 
     # ----- source text
     def loc_off(self, loc):
@@ -608,7 +621,35 @@ class Kernel:
     def conj(self, gs):
         return " && ".join(gs) if gs else "true"
 
+    def pun_read(self, n, env):
+        """k.b[c] of a punned union (see tr_decl) -> E, else None"""
+        m = self.unparen(n)
+        if m.get("kind") != "ArraySubscriptExpr":
+            return None
+        arr, idx = inner(m)
+        while arr.get("kind") in ("ParenExpr", "ImplicitCastExpr"):
+            arr = inner(arr)[0]
+        if arr.get("kind") != "MemberExpr" or arr.get("isArrow"):
+            return None
+        b = self.unparen(inner(arr)[0])
+        if b.get("kind") != "DeclRefExpr" or b["referencedDecl"].get("id") not in self.puns:
+            return None
+        wv, bf, wf = self.puns[b["referencedDecl"]["id"]]
+        if arr.get("name") != bf:
+            return None
+        i = self.expr(idx, env)
+        if i.lit is None or not (0 <= i.lit < 8):
+            raise CTransError("%s: byte index of a punned union must be a constant 0..7" % self.where(n))
+        self.read_var(wv, env, n)
+        bty = ctype_of_text("unsigned char")
+        if i.lit == 0:
+            return E("Z.land %s 255" % wv.name, bty)
+        return E("Z.land (Z.shiftr %s %d) 255" % (wv.name, 8 * i.lit), bty)
+
     def rvalue(self, n, env):
+        pr = self.pun_read(n, env)
+        if pr is not None:
+            return pr
         lv = self.lvalue(n, env)
         if lv[0] == "var":
             v = self.read_var(lv[1], env, n)
@@ -898,6 +939,8 @@ class Kernel:
         cont = lambda env2: self.tr(rest, env2, ctx, k)
         if kind == "NullStmt":
             return cont(env)
+        if kind == "CtransBlock":
+            return self.tr_block(n["stmts"], env, cont)
         if kind == "CompoundStmt":
             scope0 = env["scope"]
             return self.tr(inner(n), env, ctx, lambda e2: cont(dict(e2, scope=scope0)))
@@ -998,6 +1041,9 @@ class Kernel:
         d, more = decls[0], decls[1:]
         nxt = lambda env2: self.tr_decl(more, env2, ctx, cont, n)
         if d.get("kind") != "VarDecl":
+            if d.get("kind") == "RecordDecl":
+                self.last_record = (d.get("tagUsed"), [(f.get("name"), f.get("type", {}).get("qualType", ""), f.get("type", {}).get("desugaredQualType", ""))
+                                                      for f in inner(d) if f.get("kind") == "FieldDecl"])
             if d.get("kind") in ("RecordDecl", "TypedefDecl", "EnumDecl"):
                 return nxt(env)
             raise CTransError("%s: declaration of kind %s" % (self.where(n), d.get("kind")))
@@ -1008,6 +1054,22 @@ class Kernel:
             self.static_locals.add(key)
             self.skipped.append("static local '%s' is an input (its value before the call)" % d["name"])
             return nxt(env)
+        if not ty.scalar() and init and init[0].get("kind") == "InitListExpr" and getattr(self, "last_record", None):
+            # type punning idiom:  union { uint64_t w; uint8_t b[8]; } k = { e };   k.b[i]  reads byte i of e.
+            # LITTLE-ENDIAN byte order (x86-64, the configured build): k.b[i] = (e >> 8*i) & 0xff.
+            tag, flds = self.last_record
+            il = init[0]
+            ok = (tag == "union" and len(flds) == 2 and il.get("field", {}).get("name") == flds[0][0] and
+                  ctype_of_text(flds[0][2] or flds[0][1]).kind == "i" and ctype_of_text(flds[0][2] or flds[0][1]).bits == 64 and
+                  re.match(r"^(const )?(uint8_t|unsigned char)\s*\[8\]$", flds[1][1]) and len(inner(il)) == 1)
+            if ok:
+                wty = ctype_of_text(flds[0][2] or flds[0][1])
+                wv = self.declare(("pun", d["id"]), d["name"] + "_" + flds[0][0], wty)
+                self.puns[d["id"]] = (wv, flds[1][0], flds[0][0])
+                self.skipped.append("union '%s' {%s %s; uint8_t %s[8]}: %s.%s[i] is byte i of %s.%s in LITTLE-ENDIAN order "
+                                    "((w >> 8*i) & 0xff): assumption about the target (x86-64)" % (
+                                        d["name"], wty, flds[0][0], flds[1][0], d["name"], flds[1][0], d["name"], flds[0][0]))
+                return self.assign(wv, None, lambda e_: self.expr(inner(il)[0], e_), dict(env, scope=env["scope"] | {key}), nxt, n, declare=True)
         if not ty.scalar():
             # struct / union / array local: only its scalar members are tracked (as variables s_f), on demand
             if init and not all(self.effect_free(c) for c in init):
@@ -1349,6 +1411,34 @@ class Kernel:
             return self.branch(merged, dflt, rest, env2, ctx, k)
         return self.with_expr(lambda e_: self.expr(cnd, e_), env, go, n)
 
+    def tr_block(self, bstmts, env, cont):
+        okeys = []
+        for key in self.assigned_in(bstmts, env):
+            v = self.vars.get(key)
+            if v is None or v.name in self.ignore:
+                continue
+            if key in env["scope"] or v.cat in ("mem", "map", "global", "prelocal"):
+                okeys.append(key)
+        okeys = self.canon(okeys)
+        onames = [self.vars[x].name for x in okeys]
+        cap = {}
+
+        def kend(env2):
+            cap["env"] = env2
+            return [self.tuple(onames)]
+        body = self.tr(bstmts, env, {"ret": None, "brk": None, "cont": None}, kend)
+        if any(("None" in l.split()) or l.startswith("match ") for l in body):
+            raise CTransError("%s: a `blocks` segment must be total straight-line code" % self.cname)
+        toks = set(re.findall(r"[A-Za-z_][A-Za-z0-9_']*", "\n".join(body)))
+        fkeys = self.canon([key for key, v in self.vars.items() if v.name in toks and (key in env["assigned"] or key in self.inputs)])
+        self.nblocks = getattr(self, "nblocks", 0) + 1
+        bname = "%s_blk%d" % (self.gname, self.nblocks)
+        binders = "".join(" (%s : %s)" % (self.vars[x].name, self.vars[x].coqty) for x in fkeys)
+        rty = " * ".join(("(%s)" % self.vars[x].coqty if "->" in self.vars[x].coqty else self.vars[x].coqty) for x in okeys) or "unit"
+        self.loops.append("Definition %s%s : %s :=\n%s." % (bname, binders, rty, "\n".join(self.indent(body))))
+        call = "%s %s" % (bname, " ".join(self.vars[x].name for x in fkeys))
+        return ["let %s := %s in" % (self.pattern(onames), call)] + cont(cap.get("env", env))
+
     # ----- loops
     def tr_loop(self, n, rest, env, ctx, k):
         sub = n.get("inner", [])
@@ -1536,6 +1626,25 @@ class Kernel:
             for dcl in all_decls(st_):
                 self.pre_locals.discard(("v", dcl["id"]))
         self.slice_text = "\n".join(self.text_of(s) for s in stmts)
+        bpats = self.spec.get("blocks", [])
+        if bpats:
+            # straight-line runs starting at a statement that matches a `blocks` pattern become auxiliary definitions
+            # <name>_blkK (inputs = the variables they read, result = the variables they assign): the main definition
+            # stays linear in size and each block can be reasoned about on its own
+            out_, cur = [], None
+            for st_ in stmts:
+                t_ = " ".join(self.text_of(st_).split())
+                starts = any(re.search(bp, t_) for bp in bpats)
+                simple = st_.get("kind") in ("BinaryOperator", "CompoundAssignOperator", "UnaryOperator", "ParenExpr")
+                if starts and simple:
+                    cur = {"kind": "CtransBlock", "stmts": [st_]}
+                    out_.append(cur)
+                elif cur is not None and simple:
+                    cur["stmts"].append(st_)
+                else:
+                    cur = None
+                    out_.append(st_)
+            stmts = out_
 
         def k_end(env2):
             if self.outputs is None:
